@@ -215,11 +215,11 @@ def Req.decoded (q : Req) : Out ((List Instr × Out Unit) × (List Instr × Out 
   pure (cie, fde, initial, range)
 
 def unwindReq (q : Req) (caps : Cap × Cap) : Run Unit :=
-  match q.decoded with
-  | .ok (cie, fde, initial, range) =>
+  match (do q.cieCheck; q.fdeHeader) with
+  | .ok (initial, range, fdeBytes, fdePos) =>
     let g : Cfg := { mode := q.mode, codeAlign := q.caf, dataAlign := q.daf, addressSize := q.addressSize,
                      R := caps.1, N := caps.2 }
-    unwind g cie.1 cie.2 fde.1 fde.2 initial range
+    unwindBytes g q.cieDecodeCfg q.fdeDecodeCfg q.cieInstrPos fdePos q.cie fdeBytes initial range
   | .err e => ([], .err e)
   | .panic w => ([], .panic w)
   | .diverge => ([], .diverge)
